@@ -1,12 +1,13 @@
 (* Trace length (processor/src/trace/mod.rs: finalize_trace):
-   len = next_power_of_two (max (clk, range rows, chiplet rows) + 1); it does not mention the
-   expected-cycles hint at all. *)
+   len = next_power_of_two (max (clk + 1, range rows, chiplet rows) + 1): the executed cycles, one
+   row for HALT (where the tables and buses updated by the last END reach their final values) and
+   the random row; it does not mention the expected-cycles hint at all. *)
 From Coq Require Import ZArith List Bool Arith Lia.
 From MV Require Import Vm.Options.
 Open Scope Z_scope.
 
 Definition trace_len (clk range_rows chiplet_rows : Z) : Z :=
-  next_pow2_z (Z.max (Z.max range_rows clk) chiplet_rows + 1).
+  next_pow2_z (Z.max (Z.max range_rows (clk + 1)) chiplet_rows + 1).
 
 Definition is_pow2 (x : Z) : Prop := exists k, 0 <= k /\ x = 2 ^ k.
 
@@ -36,15 +37,15 @@ Proof.
   apply (npow2_fuel_spec 32 0 x); [lia | right; reflexivity | cbn; lia].
 Qed.
 
-(* the trace is long enough for the executed cycles, the range table and the chiplets plus the
-   random row, is a power of two, and is the smallest such power *)
+(* the trace is long enough for the executed cycles and a HALT row, the range table and the
+   chiplets, plus the random row; it is a power of two, and is the smallest such power *)
 Theorem trace_len_spec clk rng chp :
-  0 <= clk -> 0 <= rng -> 0 <= chp -> Z.max (Z.max rng clk) chp + 1 <= 4294967296 ->
+  0 <= clk -> 0 <= rng -> 0 <= chp -> Z.max (Z.max rng (clk + 1)) chp + 1 <= 4294967296 ->
   let l := trace_len clk rng chp in
-  clk + 1 <= l /\ rng + 1 <= l /\ chp + 1 <= l /\ is_pow2 l /\
-  l < 2 * (Z.max (Z.max rng clk) chp + 1).
+  clk + 2 <= l /\ rng + 1 <= l /\ chp + 1 <= l /\ is_pow2 l /\
+  l < 2 * (Z.max (Z.max rng (clk + 1)) chp + 1).
 Proof.
   intros H1 H2 H3 H4. cbv zeta. unfold trace_len.
-  destruct (next_pow2_z_spec (Z.max (Z.max rng clk) chp + 1) ltac:(lia)) as [A [B C]].
+  destruct (next_pow2_z_spec (Z.max (Z.max rng (clk + 1)) chp + 1) ltac:(lia)) as [A [B C]].
   split; [lia|]. split; [lia|]. split; [lia|]. split; [exact B|]. destruct C as [C|C]; lia.
 Qed.
